@@ -3,9 +3,27 @@
                                   (3 key) del e[key] | (4 key (default?)) get | (5 key) in | (6 key) e[key]
       -> ok ((result fields fields_dict items) ...)   one element per call
          result: (0) None | (1 field) | (2 value) | (3 bool) | (4 exc-code)
-   (21 0 blockA blockB) / (21 1 fieldA fieldB) -> ok (a==b  b==a) *)
+   (21 0 blockA blockB) / (21 1 fieldA fieldB) -> ok (a==b  b==a)
+   (25 store entries program)   several entries over one store of Field OBJECTS (Model/EntryObj.v)
+      store:   ((id field) ...)          the Field objects that exist before the program; ids are distinct naturals
+                                         (number them 1..n: the k-th object the program creates then gets the id n+k;
+                                          in general a new object gets 1 + the largest id so far)
+      entries: ((type key (id ...)) ...) each entry: its type, its key, the ids of the objects in its field list, in order
+      program: (step ...)   step:  (0 n call)     a call on entry number n (0-based)
+                                   (1 id value)   obj.value = value   the caller's own write to a Field object (not the mapping interface)
+                                   (2 id key)     obj.key = key
+               call: as in op 20  (0 field) set_field(Field(key, value, line)), a new object | (1 key value) e[key]=value |
+                     (2 key (default?)) pop | (3 key) del e[key] | (4 key (default?)) get | (5 key) in | (6 key) e[key]
+                     and  (7 id) set_field(obj)  with an object that exists at that time
+      -> ok ((result (entry-view ...) ((id field) ...)) ...)   one element per step: the result, every entry, every object
+         result:     (0) None (also for the steps 1 and 2) | (1 id field) the object returned and what it shows |
+                     (2 value) | (3 bool) | (4 exc-code)
+         entry-view: ((id ...) (field ...) ((key id) ...) ((key value) ...))   ids of the field list, fields read through
+                     the store, fields_dict as key -> object id, items()
+         objects:    every object of the store with what it shows now, oldest first
+      -> sx_err if an id is used that does not exist at that time, an entry number is out of range or the store lists an id twice *)
 From Coq Require Import List NArith ZArith Bool.
-From BP Require Import Base.Chars Base.Sx Model.Blocks Run.Codec Model.Entry.
+From BP Require Import Base.Chars Base.Sx Model.Blocks Run.Codec Model.Entry Model.EntryObj.
 Import ListNotations.
 Local Open Scope Z_scope.
 
@@ -55,8 +73,116 @@ Fixpoint enc_trace (ops : list eop) (tr : list (eres * ent)) : list sx :=
   | _, _ => []
   end.
 
+(* ---- op 25: programs over several entries sharing Field objects *)
+Inductive xstep :=
+| XCall (n : nat) (o : oop)
+| XSetValue (i : oid) (v : value)          (* obj.value = v *)
+| XSetKey (i : oid) (k : str).             (* obj.key = k *)
+
+Definition dec_oop (x : sx) : option oop :=
+  match x with
+  | L [A 0; f] => option_map PSetNew (dec_field f)
+  | L [A 1; k; v] => match as_str k, dec_value v with Some k', Some v' => Some (PSetItem k' v') | _, _ => None end
+  | L [A 2; k; d] => match as_str k, as_opt dec_value d with Some k', Some d' => Some (PPop k' d') | _, _ => None end
+  | L [A 3; k] => option_map PDel (as_str k)
+  | L [A 4; k; d] => match as_str k, as_opt dec_value d with Some k', Some d' => Some (PGet k' d') | _, _ => None end
+  | L [A 5; k] => option_map PIn (as_str k)
+  | L [A 6; k] => option_map PGetItem (as_str k)
+  | L [A 7; i] => option_map PSetObj (as_nat i)
+  | _ => None
+  end.
+
+Definition dec_xstep (x : sx) : option xstep :=
+  match x with
+  | L [A 0; n; c] => match as_nat n, dec_oop c with Some n', Some c' => Some (XCall n' c') | _, _ => None end
+  | L [A 1; i; v] => match as_nat i, dec_value v with Some i', Some v' => Some (XSetValue i' v') | _, _ => None end
+  | L [A 2; i; k] => match as_nat i, as_str k with Some i', Some k' => Some (XSetKey i' k') | _, _ => None end
+  | _ => None
+  end.
+
+Definition dec_obj (x : sx) : option (oid * field) :=
+  match x with
+  | L [i; f] => match as_nat i, dec_field f with Some i', Some f' => Some (i', f') | _, _ => None end
+  | _ => None
+  end.
+Definition dec_oent (x : sx) : option oent :=
+  match x with
+  | L [t; k; ids] =>
+      match as_str t, as_str k, as_list as_nat ids with
+      | Some t', Some k', Some ids' => Some (mkoent t' k' ids')
+      | _, _, _ => None
+      end
+  | _ => None
+  end.
+
+Fixpoint dedup (seen l : list oid) : list oid :=
+  match l with
+  | [] => []
+  | i :: r => if mem_oid i seen then dedup seen r else i :: dedup (i :: seen) r
+  end.
+Definition no_dup_ids (l : list oid) : bool := Nat.eqb (List.length (dedup [] l)) (List.length l).
+
+Definition enc_ores (s : fstore) (r : ores) : sx :=
+  match r with
+  | ONone => L [A 0]
+  | OObj i => L [A 1; snat i; enc_field (sget s i)]
+  | OVal v => L [A 2; enc_value v]
+  | OBool b => L [A 3; sbool b]
+  | OKeyError => L [A 4; A 3]
+  | OValueError => L [A 4; A 1]
+  end.
+Definition enc_oent (s : fstore) (e : oent) : sx :=
+  L [ slist snat (oids e);
+      slist enc_field (abs_ids s (oids e));
+      slist (fun ki => L [sstr (fst ki); snat (snd ki)]) (ofields_dict s (oids e));
+      slist (fun kv => L [sstr (fst kv); enc_value (snd kv)]) (oitems s e) ].
+Definition enc_store (s : fstore) : sx :=
+  slist (fun i => L [snat i; enc_field (sget s i)]) (dedup [] (rev (sdom s))).
+Definition enc_world (w : world) : list sx := [slist (enc_oent (wstore w)) (wents w); enc_store (wstore w)].
+
+(* one step, or None if it is not a program step in this world *)
+Definition xstep_run (w : world) (x : xstep) : option (world * ores) :=
+  match x with
+  | XCall n o =>
+      if Nat.ltb n (List.length (wents w)) && op_okb (wstore w) o then Some (wstep w (n, o)) else None
+  | XSetValue i v =>
+      if mem_oid i (sdom (wstore w)) then Some (mkworld (field_set_value (wstore w) i v) (wents w), ONone) else None
+  | XSetKey i k =>
+      if mem_oid i (sdom (wstore w)) then Some (mkworld (field_set_key (wstore w) i k) (wents w), ONone) else None
+  end.
+Fixpoint xrun (xs : list xstep) (w : world) : option (list sx) :=
+  match xs with
+  | [] => Some []
+  | x :: r =>
+      match xstep_run w x with
+      | None => None
+      | Some (w1, res) =>
+          match xrun r w1 with
+          | None => None
+          | Some out => Some (L (enc_ores (wstore w1) res :: enc_world w1) :: out)
+          end
+      end
+  end.
+
 Definition run_entry (op : Z) (args : list sx) : sx :=
-  if op =? 20 then
+  if op =? 25 then
+    match args with
+    | [st; es; pr] =>
+        match as_list dec_obj st, as_list dec_oent es, as_list dec_xstep pr with
+        | Some objs, Some ents, Some prog =>
+            (* the wire lists the oldest object first; the store keeps the newest binding first *)
+            let s := rev objs in
+            if no_dup_ids (sdom s) && forallb (ent_okb s) ents then
+              match xrun prog (mkworld s ents) with
+              | Some out => r_ok (L out)
+              | None => sx_err
+              end
+            else sx_err
+        | _, _, _ => sx_err
+        end
+    | _ => sx_err
+    end
+  else if op =? 20 then
     match args with
     | [b; os] =>
         match dec_block b, as_list dec_eop os with
